@@ -963,6 +963,26 @@ def check_property(ctx, pid):
             elif h["prop"] == 0:
                 tie_local.append(dict(h, job=j["name"], profile=j["prof"]))
     special = {}
+    # ---- C01: a step after which the engine's pending status differs from the model's, on the same board / side /
+    # step, AND the rule-only list offered there differs from the model's list.  The model's list is the set of
+    # rule-book continuations (C01_automaton_iff_rulebook), so the script is a concrete offered sequence that is not a
+    # prefix of a legal turn (or a legal continuation that is withheld) - not merely a wrong status (that is C12's).
+    if pid == "C01":
+        def seg(block, tag):
+            for part in block.split(" | "):
+                w = part.split()
+                if w and w[0] == tag:
+                    return w[1:]
+            return None
+        for j in jobs:
+            for d in j.get("diffs", []):
+                ws = d.get("what", "").split(",")
+                if "S.pps" in ws and not any(x.startswith("S.") and x != "S.pps" and x not in ("S.hash",) for x in ws):
+                    ni, nm = seg(d.get("impl", ""), "N"), seg(d.get("model", ""), "N")
+                    if ni is not None and nm is not None and sorted(ni) != sorted(nm):
+                        mon_hits.append({"prop": 1, "code": 5, "script": d.get("script", []),
+                                         "context": ["implementation N: " + " ".join(ni), "model N (rule-book continuations): " + " ".join(nm)] + d.get("context", [])[:2],
+                                         "job": j["name"], "profile": j["prof"]})
     # ---- property-specific machinery
     if pid == "C11" and not stage.get("unavailable"):
         special = run_sym(ctx, sdir, binfo)
@@ -1210,6 +1230,7 @@ MON_DOC = {
     (1, 1): "rule-only list differs as a set from the model's list at the implementation's own state",
     (1, 2): "an action is listed twice",
     (1, 3): "pass offered <> (step >= 1 and no push pending)",
+    (1, 5): "after this script the pending status differs from the model's on the same board/side/step and the rule-only list offered there is not the set of rule-book continuations (C01_automaton_iff_rulebook)",
     (1, 4): "offered moves differ from the square-level rules (spec/Rules.v spec_move_ok)",
     (2, 1): "board after the step differs from the model's board",
     (2, 2): "board after the step differs from the square-level rule (one piece moved one square, unsupported trap pieces removed)",
